@@ -60,6 +60,10 @@ func runShard(self string, ck *Check, tier string, seed int64, shard, nshards in
 		cmd.Stdout = lf
 		cmd.Stderr = lf
 		cmd.Env = os.Environ()
+		if os.Getenv("VERIF_COVER") == "1" {
+			os.MkdirAll(dir+"/cov", 0o755)
+			cmd.Env = append(cmd.Env, "GOCOVERDIR="+dir+"/cov")
+		}
 		if ck.Race {
 			cmd.Env = append(cmd.Env, fmt.Sprintf("GORACE=halt_on_error=0 log_path=%s/race.%d.%d", dir, shard, attempt))
 		}
@@ -265,6 +269,25 @@ func RunMain(id, tier string, seed int64) int {
 			}
 		}
 		total.Counters["race_reports"] = int64(races)
+	}
+
+	// statement coverage of the library reached by this workload (thorough tier: the checker is built with -cover)
+	if os.Getenv("VERIF_COVER") == "1" {
+		if out, err := exec.Command("go", "tool", "covdata", "percent", "-i="+dir+"/cov").CombinedOutput(); err == nil {
+			covmap := map[string]string{}
+			for _, l := range strings.Split(string(out), "\n") {
+				f := strings.Fields(l)
+				for i := 0; i+2 < len(f); i++ {
+					if strings.HasPrefix(f[i], "github.com/jawher/mow.cli") && f[i+1] == "coverage:" {
+						covmap[f[i]] = f[i+2]
+					}
+				}
+			}
+			if total.Extra == nil {
+				total.Extra = map[string]interface{}{}
+			}
+			total.Extra["library_statement_coverage"] = covmap
+		}
 	}
 
 	inconclusive := ""
